@@ -1536,7 +1536,7 @@ CaseX86M_GPB_MulDiv:
           goto InvalidImmediate;
 
         opcode = alt_opcode_of(inst_info);
-        imm_value = imm1.value() | (imm0.value() << 32);
+        imm_value = int64_t(uint64_t(imm1.value_as<uint32_t>()) | (uint64_t(imm0.value_as<uint16_t>()) << 32));
         imm_size = 6;
         goto EmitX86Op;
       }
